@@ -10,7 +10,7 @@ class HarnessError(Exception):
     pass
 
 
-def run(requests, kind="release", timeout=600, exe=None):
+def run(requests, kind="release", timeout=600, exe=None, mem_limit=None):
     """Execute requests (list of dicts; 'id' is filled in) and return the list of result dicts."""
     exe = exe or build.harness(kind)
     for i, r in enumerate(requests):
@@ -22,8 +22,13 @@ def run(requests, kind="release", timeout=600, exe=None):
             f.write(json.dumps(r, separators=(",", ":")))
             f.write("\n")
     try:
+        pre = None
+        if mem_limit:
+            def pre():
+                import resource
+                resource.setrlimit(resource.RLIMIT_AS, (mem_limit, mem_limit))
         p = subprocess.run([exe, path], stdin=subprocess.DEVNULL, stdout=subprocess.PIPE, stderr=subprocess.PIPE,
-                           timeout=timeout)
+                           timeout=timeout, preexec_fn=pre)
     except subprocess.TimeoutExpired:
         raise HarnessError("harness timed out after %ds on %d requests" % (timeout, len(requests)))
     finally:
@@ -41,14 +46,14 @@ def run(requests, kind="release", timeout=600, exe=None):
     return out
 
 
-def run_all(requests, kind="release", timeout=600):
+def run_all(requests, kind="release", timeout=600, mem_limit=None):
     """Like run(), but restarts the harness after a request that killed it, so that every request
     gets an answer (the killer gets {'died': True})."""
     results = [None] * len(requests)
     pending = list(range(len(requests)))
     while pending:
         batch = [dict(requests[i]) for i in pending]
-        res = run(batch, kind=kind, timeout=timeout)
+        res = run(batch, kind=kind, timeout=timeout, mem_limit=mem_limit)
         nxt = []
         for j, r in enumerate(res):
             if r.get("not_run"):
